@@ -70,6 +70,8 @@ func main() {
 				fmt.Fprintf(os.Stderr, "%s: %s\n", sp[0], detail)
 			}
 		}
+	case "faults":
+		faultsChild(os.Args[2:])
 	case "oracle":
 		oracleServer()
 	default:
